@@ -94,6 +94,11 @@ CHECKS = {
              "-simulate yields depth-2/3 scripts and files assembled from a 48-fragment alphabet (Fragments.tla); the scanner / tempo / note machines are total with only documented reject branches "
              "(Framing!Total, TempoMap, NoteTrack); every generated file is parsed by the real code (16 processes) and TLC judges the outcome class and str()/repr() of the chart and of every event (Props!C18V).",
         design="5 (C18)", technique="TLC enumeration and simulation of fault sequences replayed into the parser + TLC trace validation of outcome classes"),
+    "C16": dict(
+        text="TLC enumerates Nps.tla: every non-empty note set over 4/5 ticks x last-note sustain x track kind (with notes, note-less, absent) x the five overload forms x every tick bound and every time bound at, one microsecond before and after a note; "
+             "each case is replayed on an iso-scaled real chart (tick = 4 us) and seeded tracks over seeded multi-segment tempo maps add bounds coinciding with note times and each other; TLC judges each recorded call with exact "
+             "limb arithmetic (Props!C16V: count in the closed interval over the length within 2^-50, ValueError for non-positive length / absent / note-less).",
+        design="5 (C16)", technique="TLA+ model checking (TLC) enumeration + spec->code replay + TLC trace validation with exact limb arithmetic"),
 }
 
 PENDING = {}
